@@ -62,6 +62,7 @@ func checkC13(c *Check) {
 	// with discovery the authorization endpoint is the one published by this filter's own discovery document
 	discoveryCacheKeyRule(c, "C13.R1")
 	discoveryWheneverConfigured(c, "C13.R1")
+	discoveryFillsEndpoints(c, "C13.R1")
 	// … and the handler that builds the redirect is the matched filter's own (a handler cached under a chain name
 	// would send the browser to another chain's authorization endpoint with another client id and callback)
 	if pc := processInvoke(P, R); c.Anchor("C13.R1", "Handler.Process invocation in Check", pc != nil) {
